@@ -165,4 +165,74 @@ def probe_c19(oblig, tier, seed):
     return {'found': False, 'tried': tried}
 
 
-PROBES = {'C19': probe_c19, 'C12': probe_c12, 'C01': probe_c01, 'C13': probe_c01, 'C05': probe_c05, 'C03': probe_c03, 'C06': probe_c06}
+FDLIST = '#!/bin/sh\nls /proc/$$/fd | tr "\\n" " "\necho\n'
+
+
+def _fd_cases():
+    return [
+        ('shell', 'minfd', None),
+        ('shell', 'echo $(alias); minfd', None),
+        ('shell', 'echo a | cat; minfd', None),
+        ('shell', 'X=$(echo a | cat); minfd', None),
+        ('shell', 'echo a > f1; alias > f2 2>&1; minfd', None),
+        ('shell', 'ulimit -n 5; echo a | cat <<< b; minfd', None),
+        ('child', 'ls /proc/self/fd', None), ('child', 'ls /proc/self/fd 2>&1', None), ('child', 'ls /proc/self/fd 1>&2', 'stderr'), ('child', 'ls /proc/self/fd > f; cat f', None),
+        ('child', 'echo a | ls /proc/self/fd', None), ('child', 'ls /proc/self/fd | cat', None), ('child', 'echo a | ls /proc/self/fd | cat', None),
+        ('child', 'X=$(ls /proc/self/fd); echo $X', None), ('child', 'X=$(echo a | ls /proc/self/fd); echo $X', None), ('child', 'X=$(ls /proc/self/fd > f); cat f', None),
+        ('child', 'echo a | ls /proc/self/fd <<< x', None), ('child', 'ls /proc/self/fd <<< x', None), ('child', 'ls /proc/self/fd 2> f', None),
+    ]
+
+
+def probe_c08(oblig, tier, seed):
+    """descriptor listings of spawned programs (must be the same set as for a plain command) and the shell's lowest free descriptor (must stay 3)."""
+    base = W.run_cicada(line='ls /proc/self/fd')
+    base_set = base.get('stdout', '').split()
+    tried = 0
+    for kind, line, where in _fd_cases():
+        tried += 1
+        if kind == 'shell':
+            w = {'line': line, 'files': {'fdlist': FDLIST}, 'timeout': 6, 'expect_stdout_last_line': '3'}
+            r = W.observe(w)
+            last = (r.get('stdout', '').strip().split('\n') or [''])[-1]
+            if r.get('timeout') or last != '3':
+                w.update(found=True, via='binary', observed='the shell\'s lowest free descriptor is %r, expected 3 (stderr: %s)' % (last, r.get('stderr', '')[:120]))
+                return w
+        else:
+            r = W.run_cicada(line=line, files={'fdlist': FDLIST})
+            out = (r.get('stderr') if where == 'stderr' else r.get('stdout', '')).split()
+            got = [x for x in out if x.isdigit()]
+            if got != base_set:
+                return {'found': True, 'via': 'binary', 'line': line, 'expect_fdset': base_set, 'fd_where': where or 'stdout',
+                        'observed': 'program saw descriptors %s, a plain command sees %s' % (got, base_set)}
+    return {'found': False, 'tried': tried}
+
+
+def probe_c02(oblig, tier, seed):
+    cases = [('echo a | cat <<< foo', 'foo\n', 0), ('echo a | cat', 'a\n', 0), ('sh -c "exit 3" | sh -c "exit 5"', '', 5),
+             ('sh -c "exit 3" | cat', '', 0), ('echo a | cat | cat | cat', 'a\n', 0), ('echo a | cat < /dev/null', '', 0),
+             ('printf "x\\ny\\n" | wc -l <<< z', '1\n', 0), ('echo a | sh -c "kill -9 \\$\\$"', '', 137)]
+    tried = 0
+    for line, out, rc in cases:
+        w = {'line': line, 'expect_stdout': out, 'expect_rc': rc, 'timeout': 8}
+        tried += 1
+        bad, detail = W.violates(w, W.observe(w))
+        if bad:
+            return _found(w, detail)
+    return probe_c08(oblig, tier, seed)
+
+
+def probe_c04(oblig, tier, seed):
+    cases = [('echo [$(ls /nonexistent-dir-xyz 2>&1 | wc -l)]', '[1]\n'), ('X=$(sh -c "echo E >&2" 2>&1); echo "[$X]"', '[E]\n'),
+             ('sh -c "echo O; echo E >&2" > f 2>&1; cat f', 'O\nE\n'), ('sh -c "echo O; echo E >&2" 2>&1 > f | cat; cat f', 'E\nO\n'),
+             ('echo a > f; echo b >> f; cat f', 'a\nb\n'), ('echo hi | cat <<< there', 'there\n'), ('cat < /nonexistent-xyz; echo $?', '1\n')]
+    tried = 0
+    for line, out in cases:
+        w = {'line': line, 'expect_stdout': out, 'timeout': 8}
+        tried += 1
+        bad, detail = W.violates(w, W.observe(w))
+        if bad:
+            return _found(w, detail)
+    return probe_c08(oblig, tier, seed)
+
+
+PROBES = {'C08': probe_c08, 'C02': probe_c02, 'C04': probe_c04, 'C19': probe_c19, 'C12': probe_c12, 'C01': probe_c01, 'C13': probe_c01, 'C05': probe_c05, 'C03': probe_c03, 'C06': probe_c06}
